@@ -246,6 +246,35 @@ Proof.
   - intros u inf' Hu Hrm' Hi. apply B in Hi; [|discriminate]. eapply Hr; eauto.
 Qed.
 
+Lemma forget_urr_dp ok i rs c : c_dp (forget_urr ok i rs c) = c_dp c.
+Proof. unfold forget_urr. destruct (ok && negb (names_urr i rs)); reflexivity. Qed.
+
+Lemma forget_urr_out ok i rs c : c_out (forget_urr ok i rs c) = c_out c.
+Proof. unfold forget_urr. destruct (ok && negb (names_urr i rs)); reflexivity. Qed.
+
+Lemma forget_urr_s ok i rs c :
+  c_s (forget_urr ok i rs c) = c_s c \/ c_s (forget_urr ok i rs c) = set_urrs (adel i (s_urrs (c_s c))) (c_s c).
+Proof. unfold forget_urr. destruct (ok && negb (names_urr i rs)); [right | left]; reflexivity. Qed.
+
+(* forgetting an entry that is marked removed (hence absent from the data plane) keeps the session consistent *)
+Lemma forget_urr_good ok i rs c :
+  (forall inf, alookup i (s_urrs (c_s c)) = Some inf -> ui_removed inf = true) -> good c (forget_urr ok i rs c).
+Proof.
+  intros Hrm. unfold forget_urr. destruct (ok && negb (names_urr i rs)); [|apply good_refl].
+  split; [apply upd_s_frame; reflexivity|].
+  intros [Hc Hr]. cbn [upd_s c_s c_dp]. split.
+  - intros k id Hi. change (s_lid (set_urrs (adel i (s_urrs (c_s c))) (c_s c))) with (s_lid (c_s c)) in Hi.
+    pose proof (Hc _ _ Hi) as Hin. rewrite recorded_set_urrs. destruct k; try exact Hin.
+    apply keys_adel. split; [|exact Hin]. intros ->.
+    cbn [recorded] in Hin. destruct (alookup i (s_urrs (c_s c))) as [inf|] eqn:El.
+    + apply (Hr _ _ El (Hrm _ eq_refl)). exact Hi.
+    + apply alookup_None in El. auto.
+  - intros u inf Hu Hm Hi. cbn [set_urrs s_urrs] in Hu.
+    change (s_lid (set_urrs (adel i (s_urrs (c_s c))) (c_s c))) with (s_lid (c_s c)) in Hi.
+    destruct (N.eq_dec u i) as [->|Hne]; [rewrite alookup_adel_same in Hu; discriminate|].
+    rewrite alookup_adel_other in Hu by exact Hne. eapply Hr; eauto.
+Qed.
+
 Lemma remove_urr_good e id c : good c (fst (remove_urr e id c)).
 Proof.
   unfold remove_urr. destruct id as [i|]; [|apply good_refl].
@@ -253,6 +282,9 @@ Proof.
   match goal with |- context [aset i ?x _] => set (inf1 := x) end.
   set (c1 := upd_s c (fun s => set_urrs (aset i inf1 (s_urrs s)) s)).
   destruct (drv e c1 DRemove KURR i) as [c2 ok] eqn:E. cbn [fst].
+  apply (good_trans c c2); [|apply forget_urr_good; intros inf0 H0; pose proof E as E0; apply drv_spec in E0;
+    destruct E0 as [Hs0 _]; rewrite Hs0 in H0; cbn [c1 upd_s c_s set_urrs s_urrs] in H0;
+    rewrite alookup_aset_same in H0; inversion H0; reflexivity].
   assert (F1 : sframe c c1) by (apply upd_s_frame; reflexivity).
   split; [eapply sframe_trans; [exact F1 | eapply drv_frame; eauto]|].
   intros [Hc Hr]. apply drv_spec in E. destruct E as [Hs [Hd _]].
